@@ -157,6 +157,7 @@ type Exec struct {
 	oneShotMs int
 	hardMemo  map[*Term]bool
 	fixed     *Violation // concrete replay inside the interpreter
+	builders  map[string]StrV
 }
 
 type nondetRec struct {
@@ -230,6 +231,7 @@ func (e *Exec) initPhase(pkg *ssa.Package) (err string) {
 	e.wgs = map[string]int{}
 	e.nondetN = map[string]int{}
 	e.covers = map[string]bool{}
+	e.builders = map[string]StrV{}
 	e.saved = map[*Obj]Value{}
 	defer func() {
 		if r := recover(); r != nil {
@@ -278,6 +280,7 @@ func (e *Exec) resetPath() {
 		e.onces[k] = v
 	}
 	e.wgs = map[string]int{}
+	e.builders = map[string]StrV{}
 	e.pathAll = nil
 	e.nondetN = map[string]int{}
 	e.pathVars = nil
